@@ -51,6 +51,8 @@ struct ModelClient {
 	uint64_t auto_until = UINT64_MAX;
 	bool stopped = false;
 	int chunk_cap = 0;                // upstream payload bytes per chunk (0 = derive)
+	std::deque<std::string> ping_parts;   // data parts of the last pings sent (a successor on the same slot may legally send the same names)
+	std::string replay_from;          // after login, before anything else: repeat that model's last ping names if this session got its slot
 
 	void start(uint64_t at);
 	void stop() { stopped = true; }
